@@ -59,6 +59,14 @@ static void check_conversions(int d, const std::vector<double>& c, long long idx
   if (!(e5 <= tol)) violation(dsig("Imag:mismatch", d), J().i("d", d).arr("components", c).num("err", e5).done());
   SU_vector sum = re + im;
   if (!(sum == v)) violation(dsig("Real+Imag:not-identity", d), J().i("d", d).arr("components", c).done());
+  // equality is equality of components as numbers: a zero produced with a sign bit (negation, Transpose, 0*x) equals +0
+  std::vector<double> cz = c; for (auto& x : cz) if (x == 0) x = -0.0;
+  SU_vector vz = mkvec(d, cz);
+  if (!(v == vz) || !(vz == v)) violation(dsig("operator==:signed-zero-components-unequal", d), J().i("d", d).arr("components", c).done());
+  { SU_vector n1 = -v, n2 = v * (-1.0); if (!(n1 == n2)) violation(dsig("operator==:negation-vs-scalar-minus-one", d), J().i("d", d).arr("components", c).done()); }
+  bool symmetric = true; for (int i = 0; i < d; i++) for (int j = i + 1; j < d; j++) if (c[(size_t)d * j + i] != 0) symmetric = false;
+  if (symmetric && !(t == v)) violation(dsig("operator==:transpose-of-real-symmetric-unequal", d), J().i("d", d).arr("components", c).done());
+  { SU_vector z0 = v * 0.0, z1 = (-v) * 0.0; if (mag < 1e300 && !(z0 == z1)) violation(dsig("operator==:zero-multiples-unequal", d), J().i("d", d).arr("components", c).done()); }
 }
 
 static void check_matrix_input(int d, const Mat& m, const char* kind, long long idx) {
